@@ -13,6 +13,21 @@ out = ["# Seeded changes", "",
        "its demonstration (`demo/`, exit 0 = property holds), the author's notes and `meta.json` (what it needs to manifest, what was run to confirm it, which checks report it).",
        "None of these is ever committed to /repo. To evaluate: `tools/eval_seeded.sh <dir> <check ids...>` (applies to /repo, runs, reverts).", "",
        "| seeded | property | reported by | needs to manifest | change / history of the check |", "|---|---|---|---|---|"] + rows
+# compact table for DESIGN.md
+LEG = {"caught": "reported", "caught*": "reported; the run also exposed a rule that would have alarmed on a correct variant (fixed)", "brittle": "reported only through a floor / proxy that a correct variant would also trip (rule rebuilt)", "missed": "missed"}
+drows = []
+for m in sorted(glob.glob(os.path.join(V, "seeded", "*", "meta.json"))):
+    d = json.load(open(m))
+    name = os.path.basename(os.path.dirname(m))
+    det = ", ".join(d.get("detected_by") or []) or "**missed**"
+    drows.append("| %s | %s | %s |" % (name, LEG.get(d.get("first_run", ""), d.get("first_run", "")), det))
+snippet = "\n".join(["| seeded | first run | now reported by |", "|---|---|---|"] + drows)
+dp = os.path.join(V, "DESIGN.md")
+ds = open(dp).read()
+b, e = "<!-- SEEDED-TABLE-BEGIN -->", "<!-- SEEDED-TABLE-END -->"
+if b in ds and e in ds:
+    ds = ds[:ds.index(b) + len(b)] + "\n" + snippet + "\n" + ds[ds.index(e):]
+    open(dp, "w").write(ds)
 n = len(rows); miss = sum(1 for r in rows if "**missed**" in r)
 out += ["", "%d seeded changes, %d reported, %d missed." % (n, n - miss, miss), ""]
 open(os.path.join(V, "seeded", "README.md"), "w").write("\n".join(out))
